@@ -145,8 +145,48 @@ def used_graphs(d, how):
     return p, dups
 
 
+def zoo_subjects():
+    """label -> constructor(reg, t) of one object per Term class of the live package (the zoo), leaf classes and a few
+    public objects whose state is not in plain constructor arguments (exempt wrappers, custom functions, intervals)."""
+    from ..zoo import leaf_terms, zoo
+    from ..prog import registry
+    reg = registry()
+    out = {}
+    for e in zoo()[0]:
+        if e["cls"] in ("AtTimezone", "Values"):
+            mk = (lambda e: lambda t: e["make"]([t.field("o%d" % i) for i in range(e["arity"])]))(e)
+        else:
+            mk = (lambda e: lambda t: e["make"]([(t.field("o%d" % i).isnull() if i in e["crit_slots"] else t.field("o%d" % i)) for i in range(e["arity"])]))(e)
+        out["zoo:" + e["label"]] = mk
+    for label, _ in leaf_terms(reg, reg["Table"]("tz")):
+        out["leaf:" + label] = (lambda label: lambda t: dict(leaf_terms(reg, t))[label])(label)
+    VW = reg["ValueWrapper"]
+    out["exempt-wrapper"] = lambda t: VW("v2", allow_parametrize=False)
+    out["exempt-wrapper-aliased"] = lambda t: VW(5, alias="five", allow_parametrize=False)
+    out["criterion-with-exempt"] = lambda t: (t.version == VW("v2", allow_parametrize=False)) & (t.customer == "acme")
+    out["query-with-exempt"] = lambda t: reg["Query"].from_(t).select(t.a, VW("lit", allow_parametrize=False)).where(t.b == VW(3, allow_parametrize=False)).where(t.c == "p")
+    out["custom-function"] = lambda t: reg["CustomFunction"]("DATE_DIFF", ["unit", "a", "b"])("day", t.a, t.b)
+    out["custom-function-no-params"] = lambda t: reg["CustomFunction"]("NOWISH")()
+    out["query-with-custom-function"] = lambda t: reg["Query"].from_(t).select(reg["CustomFunction"]("F2", ["x"])(t.a)).where(reg["CustomFunction"]("G1", ["x"])(t.b) > 1)
+    out["interval-composite"] = lambda t: reg["Interval"](days=-2, hours=5)
+    out["interval-dialect"] = lambda t: reg["Interval"](months=3, dialect=reg["Dialects"].MYSQL)
+    out["field-plus-interval"] = lambda t: t.ts + reg["Interval"](weeks=2)
+    out["table-temporal"] = lambda t: t.for_(reg["SystemTimeValue"]() == "2020-01-01")
+    out["schema-chain-table"] = lambda t: reg["Table"]("abc", schema=["d", "s"], alias="al")
+    out["column"] = lambda t: reg["Column"]("c", "INT", nullable=False, default=3)
+    out["bracket"] = lambda t: reg["Bracket"](t.a + 1)
+    out["array"] = lambda t: reg["Array"](1, "a", t.b)
+    out["tuple"] = lambda t: reg["Tuple"](t.a, 2)
+    return out
+
+
 def cases(tier, seed, shard, nshards):
     k = 0
+    for label in zoo_subjects():
+        for how in HOWS:
+            k += 1
+            if k % nshards == shard:
+                yield {"k": "zoo", "label": label, "how": how}
     for d in DIALECT_CLASSES:
         for how in HOWS:
             k += 1
@@ -191,7 +231,70 @@ def p_ref(i):
     return Ref(i)
 
 
+_subjects = None
+
+
+def run_zoo(case, mon):
+    """One object per term class: the duplicate fingerprints like the original and like a fresh construction; a
+    replace_table continuation on either side leaves the other side alone."""
+    global _subjects
+    import copy as _copy
+    import pickle as _pickle
+    from ..prog import registry
+    reg = registry()
+    if _subjects is None:
+        _subjects = zoo_subjects()
+    mk, how = _subjects[case["label"]], case["how"]
+    t, t9 = reg["Table"]("tz"), reg["Table"]("tz9")
+    try:
+        o = mk(t)
+        fresh = mk(t)
+    except Exception as ex:
+        mon.count("zoo_unbuildable")
+        mon.add("zoo_unbuildable", "%s:%s" % (case["label"], type(ex).__name__))
+        return
+    f0 = F(o)
+    try:
+        x = {"copy": _copy.copy, "deepcopy": _copy.deepcopy, "pickle": lambda v: _pickle.loads(_pickle.dumps(v))}[how](o)
+    except Exception as ex:
+        mon.violation("%s:raises:%s" % (how, type(o).__name__), "%s of %s raised %s: %s" % (how, case["label"], type(ex).__name__, str(ex)[:200]))
+        return
+    mon.count("duplications_" + how)
+    mon.count("zoo_duplications")
+    mon.add("duplicated_classes", type(o).__name__)
+    if type(x) is not type(o):
+        mon.violation("%s:type-changed:%s" % (how, type(o).__name__), "%s of %s gave a %s" % (how, case["label"], type(x).__name__))
+        return
+    fx = F(x)
+    mon.count("duplicate_fingerprint_comparisons")
+    if fx != f0:
+        dd = fdiff(f0, fx)
+        mon.violation("%s:differs:%s" % (how, type(o).__name__), "%s of %s renders differently in %s: original %r, duplicate %r" % (
+            how, case["label"], dd[:3], _short(f0.get(dd[0])), _short(fx.get(dd[0]))), {"keys": dd[:6]})
+        return
+    # continuation on the duplicate, then on the original: neither disturbs the other, both equal a fresh construction
+    if hasattr(x, "replace_table") and hasattr(o, "get_sql"):
+        try:
+            xr = x.replace_table(t, t9)
+            fr = fresh.replace_table(t, t9)
+        except Exception as ex:
+            mon.count("zoo_continuation_raises")
+            return
+        mon.count("zoo_continuations")
+        if F(o) != f0 or F(x) != f0:
+            mon.violation("%s:continuation-leaks:%s" % (how, type(o).__name__), "replace_table on the %s of %s changed the original or the duplicate itself" % (how, case["label"]))
+            return
+        if hasattr(xr, "get_sql") and F(xr) != F(fr):
+            dd = fdiff(F(fr), F(xr))
+            mon.violation("%s:continuation-differs:%s" % (how, type(o).__name__), "replace_table on the %s of %s differs from the same call on a fresh object in %s" % (
+                how, case["label"], dd[:3]))
+            return
+    mon.nontrivial(["zoo", case["label"], how])
+
+
 def run_case(case, mon):
+    if case["k"] == "zoo":
+        return run_zoo(case, mon)
     prog = case["prog"]
     d = prog["meta"]["dialect"]
     env = run(prog, d)
@@ -258,4 +361,4 @@ def FLOORS(tier):
 
 
 def describe(case):
-    return show(case["prog"])
+    return show(case["prog"]) if "prog" in case else "%s via %s" % (case.get("label"), case.get("how"))
